@@ -44,6 +44,12 @@ CLAIMED = {
     "C19": dict(level="exploration", ref="DESIGN.md §3 C19",
         text="Arbitrary-header streams with random ITS words (all flag combinations) and conforming streams x three views x filters x file/pipe x schedules x short writes; rows parsed back: offsets, raw bytes, decoded attributes against a reference decoding from the documented bit layouts; styled == unstyled content; conforming data shows no error.",
         note="Trigger-kind priorities (SOC > SOT > HB > PhT; TDH: SOC > Internal > PhT) are taken as documented behaviour pinned by the repository's view tests."),
+    "C09": dict(level="exploration", ref="DESIGN.md §3 C09",
+        text="Seeded walks (20-600 words, illegal-word injection at 0/5/15/40 %) over the ITS word alphabet through the real ItsPayloadFsmContinuous::advance and CdpRunningValidator::check in-process; step-by-step refinement against the diagram model transcribed from the .puml: classification and successor for legal words, documented error family at the word for illegal ones. Coverage = distinct (implementation state, diagram state, word kind) tuples out of 56, reported by the check.",
+        note="No scheduler dimension (sequential FSM owned by one thread); uses the guarded verif_state_id accessor. Exhaustive enumeration of the product would be model checking and is deliberately not the deciding step."),
+    "C10": dict(level="exploration", ref="DESIGN.md §3 C10",
+        text="Per-link RDH-only histories starting at an HBF start, with bit flips over the header, boundary values, page/stop/orbit/trigger/FEE walks and packet loss/duplication/reordering, merged over 1-8 links and run through the whole pipeline under schedules in check sanity / check all x none / its. Exact two-sided oracle: [E10] iff the documented sanity predicate fails, [E11] iff the documented running automaton flags, each at the RDH's offset; nothing else reported.",
+        note="Reference predicate / automaton in itsgen::models are written from doc/checks_list.md with the tie-breaks of DESIGN.md §2.4 (detector-field bits 4..11 legal, BC 0xdeb legal)."),
 }
 
 NOT_BUILT_REASON = "check not built yet in this session (planned in DESIGN.md §3); not claimed until its machinery exists"
